@@ -25,6 +25,44 @@ def regenerate(pid):
         return "build-error", "\n".join(bad)
     return "ok", "regenerated" if text != old else "unchanged"
 
+def guard_pids():
+    sys.path.insert(0, str(ROOT / "translate"))
+    import py2lean_guards
+    return py2lean_guards.SITES
+
+def regenerate_guards(pid):
+    """Re-translate the decision logic of the functions listed for `pid` (translate/py2lean_guards.py) from the lenskit importable now.
+    Returns (status, message, info)."""
+    import py2lean_guards, lenskit
+    target = LEAN_DIR / "LK" / "Generated" / f"Guards{pid}.lean"
+    info = {"module": f"LK.Gen.Guards{pid}", "obligations": f"LK/Proofs/Guards{pid}.lean", "sites": [f"{x['file']}:{(x.get('cls') or '') + '.' + x['fn']} [{x['mode']}] → {x['lean']}" for x in py2lean_guards.SITES[pid]]}
+    try:
+        text = py2lean_guards.generate(pid, os.path.dirname(lenskit.__file__))
+    except py2lean_guards.Unsupported as e:
+        return "untranslatable", str(e), info
+    old = target.read_text() if target.exists() else ""
+    if text != old: target.write_text(text)
+    info["changed_since_last_run"] = text != old
+    return "ok", "regenerated" if text != old else "unchanged", info
+
+def obligation_broken(pid, why, mod, tier, seed, replay, info):
+    """A generated definition no longer meets its obligations (or cannot be translated any more): the property is no longer shown to hold.
+    Search for a concrete failing input with the correspondence harness; report what it finds, or the broken obligation itself."""
+    print(f"note: a generated proof obligation of {pid} no longer checks ({why[:240]}); searching for a failing input", file=sys.stderr)
+    r = subprocess.run(["lake", "build", "lkdriver"], cwd=LEAN_DIR, capture_output=True, text=True, timeout=1800)
+    if r.returncode != 0:
+        print("machinery error: lake build lkdriver failed", file=sys.stderr); return 2
+    rc = run_check(mod.SPEC, tier, seed, replay, {"obligations": len(mod.SPEC.theorems), "discharged": 0, "generated": dict(info, broken=why)})
+    if rc != 0: return rc          # the search found failing inputs (reported with replays) — or the machinery failed
+    rp = OUT / "replays"; rp.mkdir(exist_ok=True, parents=True)
+    path = rp / f"{pid}-obligation.json"
+    path.write_text(json.dumps({"property": pid, "obligation": info.get("obligations"), "generated_module": info.get("module"), "sites": info.get("sites"),
+                                "reason": why, "verdict": "no-failing-input-found",
+                                "note": "the translated decision logic of the listed functions no longer satisfies the theorems of the obligations file; "
+                                        "the correspondence harness found no input on which the property fails"}, indent=1))
+    print(f"VIOLATION property={pid} replay={path} no-failing-input-found")
+    return 1
+
 def search_chunking(pid, why):
     """A generated obligation no longer checks: look for a concrete size on which the fan-out loop misses or repeats a row."""
     from lenskit.parallel.chunking import WorkChunks
@@ -56,18 +94,28 @@ def main():
     ap.add_argument("--replay")
     a = ap.parse_args()
     quiet_lenskit()
+    mod = importlib.import_module(f"lkv.props.{a.pid.lower()}")
+    seed = int(os.environ.get("VERIF_SEED", "0")); ginfo = None
+    if a.pid in guard_pids():
+        gstatus, gmsg, ginfo = regenerate_guards(a.pid)
+        if gstatus == "untranslatable":
+            sys.exit(obligation_broken(a.pid, "untranslatable: " + gmsg, mod, a.tier, seed, a.replay, ginfo))
     if a.pid in GENERATED_FOR:
         status, msg = regenerate(a.pid)
         if status in ("untranslatable", "obligation-broken"):
             sys.exit(search_chunking(a.pid, f"{status}: {msg}"))
         if status == "build-error":
+            if ginfo is not None and f"Guards{a.pid}" in msg:
+                sys.exit(obligation_broken(a.pid, "obligation-broken: " + msg.replace("\n", " | ")[:900], mod, a.tier, seed, a.replay, ginfo))
             print(f"machinery error: lake build failed\n{msg}", file=sys.stderr); sys.exit(2)
     else:
         # incremental build of exactly what this property needs (a no-op takes 0.2 s)
         r = subprocess.run(["lake", "build", f"LK.Props.{a.pid}", "lkdriver"], cwd=LEAN_DIR, capture_output=True, text=True, timeout=1800)
         if r.returncode != 0:
-            print("machinery error: lake build failed\n" + "\n".join([l for l in (r.stdout + r.stderr).splitlines() if "error" in l][:6]), file=sys.stderr); sys.exit(2)
-    mod = importlib.import_module(f"lkv.props.{a.pid.lower()}")
+            bad = [l for l in (r.stdout + r.stderr).splitlines() if "error" in l][:8]
+            if ginfo is not None and any(f"Guards{a.pid}" in l for l in bad):
+                sys.exit(obligation_broken(a.pid, "obligation-broken: " + " | ".join(bad)[:900], mod, a.tier, seed, a.replay, ginfo))
+            print("machinery error: lake build failed\n" + "\n".join(bad[:6]), file=sys.stderr); sys.exit(2)
     try:
         indexed = [l.split()[1] for l in (LEAN_DIR / "props.index").read_text().splitlines() if l.split() and l.split()[0] == a.pid]
         mod.SPEC.theorems = sorted(set(indexed) | {t for t in mod.SPEC.theorems if "_C" in t or f".{a.pid}_" in t})
@@ -84,7 +132,8 @@ def main():
         if r.returncode != 0:
             print("machinery error: leanchecker rejected " + " ".join(mods) + "\n" + (r.stdout + r.stderr)[-600:], file=sys.stderr); sys.exit(2)
         au["leanchecker"] = {"modules": mods, "seconds": round(time.time() - t0, 1), "ok": True}
-    sys.exit(run_check(mod.SPEC, a.tier, int(os.environ.get("VERIF_SEED", "0")), a.replay, au))
+    if ginfo is not None: au["generated"] = ginfo
+    sys.exit(run_check(mod.SPEC, a.tier, seed, a.replay, au))
 
 if __name__ == "__main__":
     try:
